@@ -4,7 +4,8 @@
    rejecting / rejecting for size; label and move calls succeeding or failing), so the theorems hold for every pattern
    of remote failures. `hash` (rfc822.GetMessageHash) is abstract: a variable of every theorem.
    wf: well-formed store (Proofs/MailStoreWf.v, preserved by every operation); wfC: the recovery mailbox and the
-   in-memory hash map agree (every entry has its row, every row's hash is known, no two rows with one hash) -
+   in-memory hash map agree (every entry has its row, the hash of every row that has one is known, no two rows with
+   one hash; rows whose literal cannot be hashed - hash lit = None - have no entry and are never de-duplicated) -
    preserved by every operation provided actionMoveMessagesOutOfRecoveryMailbox erases hashes only after the label
    step succeeded (cf_erase_late, extracted by T1; without it: C20_early_erase_refuted). *)
 From Coq Require Import List ZArith NArith Bool Lia.
@@ -13,14 +14,14 @@ From Gluon Require Import Gen.FactsLimits Model.UidValidityGen Model.MailStore P
 Import ListNotations.
 Open Scope Z_scope.
 
-Theorem C20_facts : cf_erase_late facts_now = true.
-Proof. reflexivity. Qed.
+Theorem C20_facts : cf_erase_late facts_now = true /\ cf_raw_fallback facts_now = true.
+Proof. split; reflexivity. Qed.
 Print Assumptions C20_facts.
 
 (* the invariant holds along every history (APPEND/COPY/MOVE/EXPUNGE/CREATE/DELETE/RENAME/connector updates/restart,
    any failure pattern) *)
-Theorem C20_invariant : forall hash fx c clock h s, wf s -> cf_erase_late fx = true -> wfC hash s ->
-  wf (run hash fx c clock s h) /\ wfC hash (run hash fx c clock s h).
+Theorem C20_invariant : forall hash fx c clock h s, wf s -> cf_erase_late fx = true -> wfC hash fx s ->
+  wf (run hash fx c clock s h) /\ wfC hash fx (run hash fx c clock s h).
 Proof.
   intros hash fx c clock h s W Fe C. split; [exact (proj1 (good_run hash fx c clock h s W)) | exact (wfC_run hash fx c clock h s W Fe C)].
 Qed.
@@ -33,49 +34,79 @@ Theorem C20_ok_means_present_under_uid : forall hash fx c s n lit r s' a, wf s -
 Proof. exact append_announced. Qed.
 Print Assumptions C20_ok_means_present_under_uid.
 
+(* `dkey hash fx` is the de-duplication key MessageHashesMap.Insert works with: the content hash when it can be computed,
+   otherwise (cf_raw_fallback, extracted by T1 from Insert) a hash of the raw bytes - distinct per distinct literal and
+   disjoint from the content hashes. *)
+
 (* the remote side rejects it (the mailbox exists, the limits admit it, CreateMessage fails for a reason other than
-   size): afterwards the recovery mailbox holds exactly one message with the literal's hash, and the answer is NO *)
-Theorem C20_rejected_is_recovered_once_partial : forall hash fx c s n lit m, wf s -> wfC hash s -> is_recov n = false ->
+   size): the bytes are recoverable - afterwards the recovery mailbox holds the literal itself or a message with the
+   literal's key. Holds with and without the fallback. *)
+Theorem C20_rejected_is_recoverable : forall hash fx c s n lit m, wf s -> wfC hash fx s -> is_recov n = false ->
   find_name n (s_mboxes s) = Some m -> room c m 1 = true ->
-  (snd (op_append hash fx c s n lit RemFail) = ResNo \/ snd (op_append hash fx c s n lit RemFail) = ResNoKnown) /\
-  count_hash hash (hash lit) (rec_rows (fst (op_append hash fx c s n lit RemFail))) = 1%nat.
-Proof. exact rejected_recovered_once_hash. Qed.
+  exists r, In r (rec_rows (fst (op_append hash fx c s n lit RemFail))) /\
+            (row_lit r = lit \/ exists h, dkey hash fx lit = Some h /\ dkey hash fx (row_lit r) = Some h).
+Proof. exact rejected_recoverable. Qed.
+Print Assumptions C20_rejected_is_recoverable.
+
+(* once per distinct message, for EVERY literal: exactly one message with the literal's key, and the answer is NO *)
+Theorem C20_rejected_is_recovered_once_partial : forall hash fx c s n lit m, cf_raw_fallback fx = true ->
+  wf s -> wfC hash fx s -> is_recov n = false -> find_name n (s_mboxes s) = Some m -> room c m 1 = true ->
+  exists k, dkey hash fx lit = Some k /\
+    (snd (op_append hash fx c s n lit RemFail) = ResNo \/ snd (op_append hash fx c s n lit RemFail) = ResNoKnown) /\
+    count_hash hash fx k (rec_rows (fst (op_append hash fx c s n lit RemFail))) = 1%nat.
+Proof. exact rejected_recovered_once_key. Qed.
 Print Assumptions C20_rejected_is_recovered_once_partial.
 
-(* full statement - exactly once per distinct LITERAL - holds when the hash identifies the literal ... *)
-Theorem C20_rejected_is_recovered_once_injective : forall hash fx c s n lit m, (forall a b, hash a = hash b -> a = b) ->
-  wf s -> wfC hash s -> is_recov n = false -> find_name n (s_mboxes s) = Some m -> room c m 1 = true ->
+(* a literal whose content hash cannot be computed is kept exactly once, literally (repeated APPENDs of the same bytes) *)
+Theorem C20_rejected_hashless_once : forall hash fx c s n lit m, cf_raw_fallback fx = true ->
+  wf s -> wfC hash fx s -> is_recov n = false -> find_name n (s_mboxes s) = Some m -> room c m 1 = true -> hash lit = None ->
+  count_lit lit (rec_rows (fst (op_append hash fx c s n lit RemFail))) = 1%nat.
+Proof. exact rejected_hashless_once. Qed.
+Print Assumptions C20_rejected_hashless_once.
+
+(* full statement - exactly once per distinct LITERAL - holds when the key identifies the literal ... *)
+Theorem C20_rejected_is_recovered_once_injective : forall hash fx c s n lit m h,
+  (forall a b x, dkey hash fx a = Some x -> dkey hash fx b = Some x -> a = b) -> dkey hash fx lit = Some h ->
+  wf s -> wfC hash fx s -> is_recov n = false -> find_name n (s_mboxes s) = Some m -> room c m 1 = true ->
   count_lit lit (rec_rows (fst (op_append hash fx c s n lit RemFail))) = 1%nat.
 Proof.
-  intros hash fx c s n lit m Inj W C Rn F Rm. rewrite (count_lit_hash hash lit _ Inj).
-  exact (proj2 (rejected_recovered_once_hash hash fx c s n lit m W C Rn F Rm)).
+  intros hash fx c s n lit m h Inj Eh W C Rn F Rm. rewrite (count_lit_hash hash fx lit h _ Inj Eh).
+  exact (proj2 (rejected_recovered_once_hash hash fx c s n lit m h W C Rn F Rm Eh)).
 Qed.
 Print Assumptions C20_rejected_is_recovered_once_injective.
 
-(* ... and is refuted otherwise (recorded finding D17). Full statement:
-     forall hash ..., count_lit lit (rec_rows (fst (op_append hash fx c s n lit RemFail))) = 1
-   Witness: two different literals with one hash (the real hash ignores Date, Message-Id and most other headers), both
-   rejected: the second one is answered "known recovered message" and is kept nowhere. *)
+(* ... and is refuted for colliding content hashes (recorded finding D17): two different literals with one content hash
+   (the real hash ignores Date, Message-Id and most other headers), both rejected: the second one is answered "known
+   recovered message" and is kept nowhere. *)
 Theorem C20_rejected_is_recovered_once_refuted :
-  exists (hash : N -> N) (s : store) (lit : N),
-    wf s /\ wfC hash s /\
+  exists (hash : N -> option N) (s : store) (lit : N),
+    wf s /\ wfC hash facts_fixed s /\
     snd (op_append hash facts_fixed (mkCfg 100 100 100000 100) s inbox_name lit RemFail) = ResNoKnown /\
     count_lit lit (rec_rows (fst (op_append hash facts_fixed (mkCfg 100 100 100000 100) s inbox_name lit RemFail))) = 0%nat /\
     (forall m, In m (s_mboxes (fst (op_append hash facts_fixed (mkCfg 100 100 100000 100) s inbox_name lit RemFail))) ->
                forall r, In r (mb_rows m) -> snd (snd r) <> lit).
 Proof.
-  set (hash := fun _ : N => 0%N). set (c := mkCfg 100 100 100000 100). set (clock := fun _ : nat => 0).
+  set (hash := fun _ : N => Some 0%N). set (c := mkCfg 100 100 100000 100). set (clock := fun _ : nat => 0).
   set (h := [OConnCreate inbox_name; OAppend inbox_name 7%N RemFail]).
   exists hash, (run hash facts_fixed c clock (init_store 100) h), 8%N.
   assert (W0 : wf (init_store 100)) by apply wf_init.
-  assert (C0 : wfC hash (init_store 100)).
-  { constructor; [intros id x Hx; vm_compute in Hx; destruct Hx | intros r Hr; vm_compute in Hr; destruct Hr | vm_compute; constructor]. }
+  assert (C0 : wfC hash facts_fixed (init_store 100)).
+  { constructor; [intros id x Hx; vm_compute in Hx; destruct Hx | intros r x Hr; vm_compute in Hr; destruct Hr | vm_compute; constructor]. }
   split; [exact (proj1 (good_run hash facts_fixed c clock h _ W0))|].
   split; [exact (wfC_run hash facts_fixed c clock h _ W0 eq_refl C0)|].
   split; [vm_compute; reflexivity|]. split; [vm_compute; reflexivity|].
   vm_compute. intros m Hm r Hr. destruct Hm as [<-|[<-|[]]]; cbn in Hr; [destruct Hr as [<-|[]]; discriminate | destruct Hr].
 Qed.
 Print Assumptions C20_rejected_is_recovered_once_refuted.
+(* the fallback is necessary: with Insert returning the hashing error (the code before a164a71) a literal without content
+   hash that is rejected twice is kept twice *)
+Theorem C20_without_raw_fallback_refuted :
+  exists (h : list op) (lit : N),
+    count_lit lit (rec_rows (run (fun _ => None) (mkFacts true true true true true false) (mkCfg 100 100 100000 100) (fun _ => 0) (init_store 100) h)) = 2%nat.
+Proof.
+  exists [OConnCreate inbox_name; OAppend inbox_name 7%N RemFail; OAppend inbox_name 7%N RemFail], 7%N. vm_compute. reflexivity.
+Qed.
+Print Assumptions C20_without_raw_fallback_refuted.
 
 (* listed exactly while non-empty: State.List drops the recovery mailbox iff it holds no message (and never drops
    another mailbox for that reason) *)
@@ -125,7 +156,7 @@ Print Assumptions C20_move_copy_out_announced.
 (* ... and a MOVE takes exactly the selected messages (and their hashes) out of the recovery mailbox, a COPY leaves it
    as it is; a failed attempt changes neither (rchange: same / removed ids) *)
 Theorem C20_move_copy_out_effect_on_recovery : forall hash fx c ad s d sel mv cr lab, wf s -> cf_erase_late fx = true ->
-  mb_id d <> recov_id -> rchange hash ad s (fst (out_of_recovery fx c s d sel mv cr lab)).
+  mb_id d <> recov_id -> rchange hash fx ad s (fst (out_of_recovery fx c s d sel mv cr lab)).
 Proof. intros hash fx c ad s d sel mv cr lab. exact (rchange_out_of_recovery hash fx c ad s d sel mv cr lab). Qed.
 Print Assumptions C20_move_copy_out_effect_on_recovery.
 
@@ -134,7 +165,7 @@ Print Assumptions C20_move_copy_out_effect_on_recovery.
    stores it a second time *)
 Theorem C20_early_erase_refuted :
   exists (h : list op) (lit : N),
-    count_lit lit (rec_rows (run (fun l => l) (mkFacts true true true true false) (mkCfg 100 100 100000 100) (fun _ => 0) (init_store 100) h)) = 2%nat.
+    count_lit lit (rec_rows (run (fun l => Some l) (mkFacts true true true true false true) (mkCfg 100 100 100000 100) (fun _ => 0) (init_store 100) h)) = 2%nat.
 Proof.
   exists [OConnCreate inbox_name; OAppend inbox_name 7%N RemFail; OMove recov_name [1] inbox_name true false; OAppend inbox_name 7%N RemFail], 7%N.
   vm_compute. reflexivity.
@@ -142,12 +173,21 @@ Qed.
 Print Assumptions C20_early_erase_refuted.
 
 (* non-vacuity: the start state satisfies wf and wfC; a history with rejection, duplicate, move out, restart *)
-Example C20_start_ok : wf (init_store 100) /\ wfC (fun l => l) (init_store 100).
-Proof. split; [apply wf_init|]. constructor; [intros id x Hx; vm_compute in Hx; destruct Hx | intros r Hr; vm_compute in Hr; destruct Hr | vm_compute; constructor]. Qed.
+Example C20_start_ok : wf (init_store 100) /\ wfC (fun l => Some l) facts_fixed (init_store 100).
+Proof. split; [apply wf_init|]. constructor; [intros id x Hx; vm_compute in Hx; destruct Hx | intros r x Hr; vm_compute in Hr; destruct Hr | vm_compute; constructor]. Qed.
 Example C20_history_example :
-  run_results (fun l => l) facts_fixed (mkCfg 100 100 100000 100) (fun _ => 0) (init_store 100)
+  run_results (fun l => Some l) facts_fixed (mkCfg 100 100 100000 100) (fun _ => 0) (init_store 100)
     [OConnCreate inbox_name; OAppend inbox_name 7%N RemFail; OAppend inbox_name 7%N RemFail; OAppend inbox_name 8%N RemSize;
      OMove recov_name [1] inbox_name true true; OAppend inbox_name 7%N RemFail; ORestart; OAppend inbox_name 7%N RemFail;
      OAppend recov_name 9%N RemOk]
   = [ResOk []; ResNo; ResNoKnown; ResNoSize; ResOk [(1, 1)]; ResNo; ResOk []; ResNoKnown; ResNo].
+Proof. vm_compute. reflexivity. Qed.
+(* literal 9 has no content hash: kept once (raw-bytes key), thrown away together with an ordinary message (Erase over a list
+   with an id that has no hash entry), the ordinary message rejected again is kept again; restart rebuilds the map *)
+Example C20_hashless_history_example :
+  run_results (fun l => if N.eqb l 9 then None else Some l) facts_fixed (mkCfg 100 100 100000 100) (fun _ => 0) (init_store 100)
+    [OConnCreate inbox_name; OAppend inbox_name 9%N RemFail; OAppend inbox_name 7%N RemFail; OAppend inbox_name 9%N RemFail;
+     OExpunge recov_name [1; 2] true; OAppend inbox_name 7%N RemFail; ORestart; OAppend inbox_name 7%N RemFail;
+     OAppend inbox_name 9%N RemFail; OMove recov_name [3; 4] inbox_name true true; OAppend inbox_name 7%N RemFail]
+  = [ResOk []; ResNo; ResNo; ResNoKnown; ResOk []; ResNo; ResOk []; ResNoKnown; ResNo; ResOk [(3, 1); (4, 2)]; ResNo].
 Proof. vm_compute. reflexivity. Qed.
